@@ -13,6 +13,7 @@ try:
     hooks_commits = [l.split()[0] for l in out.splitlines() if " verif-hook:" in l or l.split(" ", 1)[1].startswith("verif hook")]
 except Exception:
     pass
+ENUM = {'exploration', 'fault_enumeration', 'model_checking', 'proof', 'translation_validation', 'other'}
 baseline = json.load(open("/root/.vp/BASELINE.json"))["cmd"]
 m = {
     "version": 1,
@@ -48,7 +49,8 @@ for i in ids:
         "evidence_file": f"/verif/evidence/{i}.json",
         "replay_cmd_template": f"./check {i} --replay {{path}}",
         "engine": "lean-model+go-harness",
-        "level_claimed": {"category": p.get("level", "proof"), "text": p["level_text"], "design_ref": p.get("design_ref", f"DESIGN.md §4 {i}")},
+        "level_claimed": {"category": (p.get("level", "proof") if p.get("level", "proof") in ENUM else "proof"),
+                          "text": ("PARTIAL (see level_note for what the proof does not carry): " if p.get("level") == "partial" else "") + p["level_text"], "design_ref": p.get("design_ref", f"DESIGN.md §4 {i}")},
         "level_note": p["level_note"],
         "technique": p["technique"],
     })
